@@ -274,9 +274,56 @@ def judge(facts, b, bid, want_false=True, want_alloc=True, ctx_false=(), ctx_all
 WANTS_PROP = True
 
 
+def abandoned_size_independent(res, facts):
+    """C18: the fresh buffer allocated when the handle has to leave a buffer it still shares (`Vec::with_capacity` in the reservation
+    helper) is sized from the request and the original-capacity hint only - never from the capacity of the buffer being left behind.
+    If it grew with the abandoned buffer (`max(2 * old, needed)`), a recycling loop whose parts are retained for one round would
+    replace every exhausted buffer by a larger one: peak memory grows with the number of rounds."""
+    b0 = reserve_helper(facts)
+    bodies = [b0] if b0 is not None else [v for (_, v) in reserve_roots(facts)]
+    from .inline import views
+    n = 0
+    for b in bodies:
+        cands = [b] + (list(views(facts, b, keep_names=("rebuild_vec", "offset_from", "is_unique", "get_vec_pos", "original_capacity_from_repr"))) if b0 is not None else [])
+        verdict = None
+        for v in cands:
+            eb = ExprBuilder(v, facts, inline=True)
+            bad = None
+            sites = 0
+            for bi, t in v.calls():
+                fn = callee(t)
+                if v.blocks[bi]["cleanup"] or fn is None or fn["name"] != "with_capacity" or not t["args"]:
+                    continue
+                sites += 1
+                e = eb.operand(t["args"][0], (bi, len(v.blocks[bi]["stmts"])))        # raw: a phi still lists its alternatives
+                for x in walk(e):
+                    if isinstance(x, tuple) and x and ((x[0] == "call" and x[1].rsplit("::", 1)[-1] == "capacity") or
+                                                      (x[0] == "field" and len(x) == 3 and x[2] == "cap")):
+                        bad = (bi, x)
+                    if isinstance(x, tuple) and x and x[0] == "call" and x[1].split("::")[0] in ("bytes_mut", "bytes") and facts.by_id.get(x[1]) \
+                            and any(isinstance(a, tuple) and a and ((a[0] == "call" and a[1].rsplit("::", 1)[-1] == "capacity") or (a[0] == "field" and len(a) == 3 and a[2] == "cap")) for a in x[2]):
+                        bad = (bi, x)
+            if sites:
+                verdict = (v, bad, sites)
+                if bad is None:
+                    break
+        if verdict is None:
+            continue
+        n += 1
+        v, bad, sites = verdict
+        key = "%s|fresh buffer sized independently of the abandoned one" % b.id
+        if bad:
+            res.bad(key, b.loc(bad[0] if bad[0] < len(b.blocks) else None), "Vec::with_capacity in the reservation helper is sized from `%s`: the buffer that replaces a still-shared one grows "
+                                                                       "with the buffer it leaves behind, so peak memory grows with the number of rounds" % fmt_expr(bad[1])[:70])
+        else:
+            res.ok(key, b.loc(), "%d with_capacity site(s), sized from the request and the original-capacity hint only" % sites, nontrivial=True)
+    return n
+
+
 def run(facts, prop=None):
     res = run_mode(facts, "empty")
     if prop == "C18":
+        abandoned_size_independent(res, facts)
         r2 = run_mode(facts, "recycle")
         res.instances += r2.instances
         res.violations += r2.violations
